@@ -67,6 +67,11 @@ std::vector<Item> random_options(Rng &r, int mode, int density) {
 	if (maybe(6)) pool.push_back({"-pedantic"});
 	if (maybe(10)) pool.push_back({r.coin(1, 2) ? "-Wall" : "-Wno-unused"});
 	if (maybe(8)) pool.push_back({"-v"});
+	// the same option more than once: every occurrence is passed on, in order
+	if (!pool.empty() && maybe(25)) {
+		int nd = 1 + (int)r.below(2);
+		for (int i = 0; i < nd; i++) pool.push_back(pool[r.below((uint32_t)pool.size())]);
+	}
 	(void)mode;
 	return pool;
 }
@@ -134,7 +139,9 @@ Scenario gen_c17(uint64_t seed) {
 			continue;
 		}
 		if (xactive) { inseq.push_back(opt_val(r, "-x", "none")); xactive = false; }
-		std::string nm = base + (ty == TY_O ? (r.coin(1, 3) ? ".a" : r.coin(1, 2) ? ".o" : "") : TYPES[ty].suffix);
+		// objects: anything whose suffix is not exactly one of the six source suffixes, including look-alikes
+		static const char *objsuf[] = {".a", ".o", ".o", "", ".so", ".so.1", ".lo", ".obj", ".cc", ".cpp", ".hpp", ".in", ".html", ".ss", ".Sx", ".ii", ".qbe2", ".c.orig", ".C", ".H", ".sS"};
+		std::string nm = base + (ty == TY_O ? objsuf[r.below(21)] : TYPES[ty].suffix);
 		if (ty == TY_O && nm.find('.') == std::string::npos && nm[0] == '-') nm = "./" + nm;
 		inseq.push_back({nm});
 		sc.files.emplace_back(nm, (int)r.below(5));
@@ -386,6 +393,29 @@ Scenario gen_c18(uint64_t seed, uint64_t index, bool relaxed) {
 			for (auto &p : sc.plans) if (p.kind == st2 && p.occ == occ_of(in2, st2)) dup = true;
 			if (!dup) add_failure(in2, st2, fm2);
 		}
+	}
+	// a stage that is stopped and later continued (job control, a debugger): only a delay
+	if (r.coin(1, 5)) {
+		int in2 = (int)r.below(c.ninputs);
+		std::vector<int> rs = runs(types[in2]);
+		if (!rs.empty()) {
+			StopPlan sp;
+			sp.kind = rs[r.below((uint32_t)rs.size())];
+			sp.occ = occ_of(in2, sp.kind);
+			sp.at = (int)r.below(6);
+			sp.duration = 1 + (int)r.below(40);
+			sc.stops.push_back(sp);
+		}
+	}
+	// a rebuild: some of the files this invocation may produce exist already
+	if (r.coin(1, 3)) {
+		for (int i = 0; i < c.ninputs; i++) {
+			static const char *ext[] = {".o", ".s", ".qbe"};
+			for (int k = 0; k < 3; k++) if (r.coin(1, 2) && types[i] != (k == 0 ? TY_O : k == 1 ? TY_s : TY_QBE)) sc.files.emplace_back("in" + std::to_string(i) + ext[k], 1 + (int)r.below(3));
+		}
+		if (r.coin(1, 2)) sc.files.emplace_back("result.out", 2);
+		if (r.coin(1, 2)) sc.files.emplace_back("prog", 2);
+		if (r.coin(1, 2)) sc.files.emplace_back("a.out", 2);
 	}
 	if (relaxed) {
 		if (r.coin(1, 2) && c.last == LINK) sc.faults.push_back({"mkstemp", (int)r.below(c.ninputs), r.coin(1, 2) ? EACCES : ENOSPC});
